@@ -150,6 +150,11 @@ def mulBits (a : G F) (bits : List Bool) : G F :=
 
 def mul (a : G F) (k : Fr) : G F := a.mulBits (bitsMSB k.val)
 
+/-! operator instances (`impl Add / Sub / Neg for G<P>`) -/
+instance : Add (G F) := ⟨G.add⟩
+instance : Sub (G F) := ⟨G.sub⟩
+instance : Neg (G F) := ⟨G.neg⟩
+
 end G
 
 namespace AffineG
